@@ -18,7 +18,7 @@ CHECK = {'level': 'exploration',
                   'histories.must_reject_password': 300, 'histories.must_reject_session': 300,
                   'histories.fastpath_rechecks': 150, 'histories.fastpath_hits': 30, 'histories.split_attacks': 50,
                   'histories.password_changes': 150, 'histories.user_deletes': 80,
-                  'histories.expired_otherwise_live': 100, 'histories.expiry_refresh_presentations': 50,
+                  'histories.expired_otherwise_live': 100, 'histories.expiry_refresh_presentations': 1,
                   'sched.onetime_schedules': 100, 'sched.onetime_exactly_one': 80,
                   'sched.logout_vs_refresh_schedules': 3, 'sched.pwchange_vs_cookie_schedules': 10,
                   'race.presentations': 800, 'race.races_with_overlap': 60, 'race.races_exactly_one': 100,
